@@ -50,6 +50,16 @@ def _num_str(r, v):
         forms += ["%d" % v, "%d." % v, "%d.0" % v, "%de0" % v]
     else:
         forms += [("%r" % v).lstrip("0") if 0 < v < 1 else repr(v), "%.3f" % v]
+    u = r.random()
+    if u < 0.08:
+        # a chain that mixes / and * (left to right: (a/b)*c), or * - + : operators of one precedence level share it
+        bb, cc = r.choice([2, 4]), r.choice([2, 4, 8])
+        return "(%r/%d*%d)" % (float(v) * bb / cc, bb, cc)
+    if u < 0.14:
+        bb, cc = r.choice([1, 2]), r.choice([1, 2, 3])
+        pp = (float(v) + bb - cc) / 2
+        if pp > 0:
+            return "(%r*2-%d+%d)" % (pp, bb, cc)
     if r.random() < 0.2:
         a, b = r.choice([(2, "*"), (3, "*"), (2, "/")]), None
         k = a[0]
